@@ -45,10 +45,24 @@ def rule_push_parity(check):
     if len(matches) != 1:
         raise AnchorMissing("match on the operand in replace_expressions_in_expr")
     n_arms = 0
-    for a in matches[0]["arms"]:
+    arms_ = [(f, lid, a) for a in matches[0]["arms"]]
+    # operand kinds that are told apart one level up, in the wrapper that unpacks an ExprOrSpread (array
+    # expansion may live there): its arms are operand arms too
+    w = prog.fn_opt("OperandHandler::replace_expressions_in_expr_or_spread")
+    if w is not None:
+        wn = [hir.pat_bindings(p["pat"])[0]["name"] if hir.pat_bindings(p["pat"]) else "?" for p in w.rec["params"]]
+        if "arguments" in wn:
+            wlid = hir.pat_bindings(w.rec["params"][wn.index("arguments")]["pat"])[0]["local"]
+            p0 = hir.pat_bindings(w.rec["params"][0]["pat"])
+            for m_ in [n for n in hir.walk_no_closure(w.body) if n.get("k") == "Match" and not (n.get("source") or "").startswith(("ForLoop", "TryDesugar"))]:
+                root = (hir.place(hir.peel_transparent(m_["scrut"])) or "").lstrip("*&").split(".")[0]
+                sty = (hir.peel_transparent(m_["scrut"]).get("ty") or "").replace("&mut ", "").replace("&", "")
+                if p0 and root == "%s#%d" % (p0[0]["name"], p0[0]["local"]) and "swc_ecma_ast::Expr" in sty and "Option<" not in sty and "ExprOrSpread" not in sty:
+                    arms_ += [(w, wlid, a) for a in m_["arms"] if str(hir.pat_variant(a["pat"])).split("::")[-1] not in ("_",) or not any(hir.is_call(x) and (hir.callee_name(x) or "") == "replace_expressions_in_expr" for x in hir.walk(a["body"]))]
+    for f_a, lid_a, a in arms_:
         v = hir.pat_variant(a["pat"])
         vn = v.split("::")[-1] if isinstance(v, str) else str(v)
-        cs = {c for c, t in ef.counts(f, a["body"], lid, ())}
+        cs = {c for c, t in ef.counts(f_a, a["body"], lid_a, ())}
         n_arms += 1
         key = "%s/replace_expressions_in_expr/%s" % (R, vn)
         if vn == "Array":
@@ -99,9 +113,30 @@ def rule_mirror(check):
     for n in pushes:
         arg = hir.call_args(n)[1]
         # through get_expr_or_spread(&id_expr, kind): the expression argument
-        inner = hir.peel(arg)
-        e = hir.call_args(inner)[1] if hir.is_call(inner) and hir.callee_name(inner) == "get_expr_or_spread" else arg
-        os_ = pv.origins(g, e)
+        from .prov import value_exprs as _vals
+
+        def leaves(x, depth=0):
+            """the expressions whose value `x` can be: through a never-reassigned local, the branches of an
+            if / match, and the expression handed to get_expr_or_spread (which only wraps it)"""
+            x = hir.peel(x)
+            l_ = hir.local_of(x)
+            if l_ and depth < 4:
+                b_ = g.bindings().get(l_[0])
+                if b_ and b_["origin"][0] == "let" and b_["origin"][1] is not None and not g.assignments_to(l_[0]) and not (len(b_["origin"]) > 2 and b_["origin"][2] and b_["origin"][2] != ((),)):
+                    return leaves(b_["origin"][1], depth + 1)
+                return [x]
+            if x.get("k") in ("If", "Match", "BlockExpr") and depth < 4:
+                out = []
+                for v_ in _vals(x):
+                    out += leaves(v_, depth + 1) if hir.peel(v_) is not x else [hir.peel(v_)]
+                return out
+            if hir.is_call(x) and hir.callee_name(x) == "get_expr_or_spread" and len(hir.call_args(x)) > 1:
+                return leaves(hir.call_args(x)[1], depth + 1)
+            return [x]
+
+        os_ = set()
+        for e in leaves(arg):
+            os_ |= pv.origins(g, e)
         kinds = set()
         ok = True
         for r, p in os_:
@@ -483,10 +518,10 @@ def rule_call_signature(check):
     # the loop over the arguments, in replace_call_callee_and_args itself or in a helper it hands `.args` to
     fl_ = prog.flat(g, 2)
     fe = [(h, n) for h in fl_ for n in hir.calls_in(h.body, name="for_each") if any(hir.is_call(m) and (hir.callee_name(m) or "") == "replace_expressions_in_expr_or_spread" for a_ in hir.call_args(n)[1:] for m in hir.walk(a_))]
-    fe = [(h, n) for h, n in fe if h is g or (h.name or "") != "replace_expressions_in_expr"]
+    fe = [(h, n) for h, n in fe if h is g or "OperandHandler" not in h.def_path]  # (loops of the operand handler itself walk array elements, not the call's arguments)
     # ... or a plain `for x in <args>.iter_mut() { .. }`
     floops = [(h, m_) for h in fl_ for m_ in h.nodes() if m_.get("k") == "Match" and m_.get("source", "").startswith("ForLoopDesugar") and hir.is_call(hir.peel(m_["scrut"])) and (hir.callee_name(hir.peel(m_["scrut"])) or "") == "into_iter" and any(hir.is_call(z) and (hir.callee_name(z) or "") == "replace_expressions_in_expr_or_spread" for z in hir.walk(m_))]
-    floops = [(h, m_) for h, m_ in floops if h is g or (h.name or "") != "replace_expressions_in_expr"]
+    floops = [(h, m_) for h, m_ in floops if h is g or "OperandHandler" not in h.def_path]
     if not fe and len(floops) == 1:
         fe = [(floops[0][0], {"k": "Call", "args": [hir.call_args(hir.peel(floops[0][1]["scrut"]))[0]], "f": {"k": "Path"}, "sp": floops[0][1]["sp"]})]
     ok = len(fe) == 1
@@ -658,6 +693,24 @@ def rule_call_signature(check):
         first_is_ident = all((r[0] == "param" and r[2] == 0) or (r[0] == "ctor" and r[1].endswith("Expr::Ident")) for r, p in o1)
         und = [x["lit"]["v"] for x in hir.walk(h.body) if x.get("k") == "Lit" and x["lit"]["t"] == "str"]
         ok = first_is_ident and "undefined" in und
+    if not ok and al:
+        # the same list however it is put together (`vec![fn, undefined]`, pushes, a constructor helper for `undefined`)
+        from . import seqform as SQ
+
+        rcs = [n for n in evs if ev_name(n) == "replace_call_callee_and_args"]
+        use = [x for n in rcs[:1] for a_ in hir.call_args(n) for x in hir.walk(a_) if (hir.local_of(x) or (None,))[0] == al[0]]
+        if use:
+            items = SQ.seq_of(h, use[0], upto=rcs[0]["id"])
+            if len(items) == 2 and all(it[0] == "one" for it in items):
+                o1 = pv.origins(h, items[0][1])
+                first_is_ident = bool(o1) and all((r[0] == "param" and r[2] == 0) or (r[0] == "ctor" and r[1].endswith("Expr::Ident")) for r, p in o1)
+                lits = [x["lit"]["v"] for x in hir.walk(items[1][1]) if x.get("k") == "Lit" and x["lit"]["t"] == "str"]
+                for x in hir.walk(items[1][1]):
+                    g_ = prog.resolve_local(x) if hir.is_call(x) else None
+                    if g_ is not None and g_.body is not None:
+                        lits += [y["lit"]["v"] for y in hir.walk(g_.body) if y.get("k") == "Lit" and y["lit"]["t"] == "str"]
+                ok = first_is_ident and "undefined" in lits
+                seq = [SQ.show(items)]
     check.expect(ok, R, R + "/bare-call", hir.loc(h.rec), "bare call: (fn, undefined, args..)", "bare-call hook arguments are %s" % seq)
     # a bare call keeps its callee: `f(x)` stays a call of the identifier `f` (direct eval, with-scope
     # lookup, strictness of the callee resolution); only the member path replaces the callee
